@@ -806,7 +806,8 @@ void check_others_untouched(World &W, int si, const std::set<PfxRec> &allp, cons
 		if (o == si)
 			continue;
 		Peer &q = W.peers[(size_t)o];
-		if (q.in_sync || q.stopping || !q.started || maybe_expired(W, o))
+		// (a socket whose state already says SHUTDOWN is being stopped even if the report of it has not been delivered yet)
+		if (q.in_sync || q.stopping || !q.started || maybe_expired(W, o) || W.socks[(size_t)o].state == RTR_SHUTDOWN)
 			continue;
 		if (of_src(allp, o) != W.model_pfx[(size_t)o] || of_src(alls, o) != W.model_spki[(size_t)o]) {
 			std::set<PfxRec> now1 = of_src(allp, o);
@@ -1150,6 +1151,7 @@ void sync_exit_locked(World &W, int si, int rc)
 		// the socket is being stopped (operator or failover) while this synchronisation was running: whatever it
 		// returned, rtr_stop purges the socket's records right after; judged by the stop audit (C07), not here
 		W.ctx.count("probe_sync_ended_by_stop");
+		p.stopping = true;
 		// C13: the interrupted synchronisation may or may not have acted on a licensed downgrade trigger that was in its
 		// stream (first PDU of the connection in a lower version, Unsupported-Version report, hang-up before a session
 		// exists): either version is accepted at the next query. Without such a trigger nothing is licensed.
